@@ -226,11 +226,11 @@ def run_unary(F, system, mom, layouts, seed, extras_layouts=("ak-jagged", "ak-re
                 continue
             if layout.endswith("-spacelike") and name in ("numpy.sqrt", "numpy.cbrt"):
                 continue        # fractional powers of a negative tau^2: outside the domain of the definition (Python floats give complex numbers, NumPy gives NaN)
-            if layout == "ak-record" and name.startswith("allclose"):
+            if layout.startswith("ak-record") and name.startswith("allclose"):
                 continue        # allclose is a method of arrays; a record is a single vector
             if layout.startswith("ak") and name.startswith("numpy.isclose"):
                 continue        # probed separately (known finding C12 'numpy.isclose on Awkward vector arrays is Awkward's field-wise isclose')
-            if layout == "ak-record" and name in RECORD_OPERATOR_OPS:
+            if layout.startswith("ak-record") and name in RECORD_OPERATOR_OPS:
                 continue        # probed separately (probes(): known finding C18 'operators on records')
             tag = f"{name}[{','.join(system)}|{'mom' if mom else 'gen'}|{layout}]"
             snap = AR.snapshot(v)
@@ -263,6 +263,9 @@ def run_unary(F, system, mom, layouts, seed, extras_layouts=("ak-jagged", "ak-re
             WITNESS.pop("result", None)
             if ak is not None and isinstance(res, (ak.Array, ak.Record)) and isinstance(res, vector.Vector) and isinstance(v, (ak.Array, ak.Record)):
                 # C18: one-vector operations carry every non-coordinate field through unchanged; structure preserved
+                for fld in {"ak-record-hits": ("hits",), "ak-record-label": ("label",)}.get(layout, ()):
+                    ok = fld in ak.fields(res) and ak.to_list(res[fld]) == ak.to_list(v[fld])
+                    F.check("C18", f"extra-field-carried/{fld}/{tag}", ok, dict(fields=ak.fields(res), got=str(ak.to_list(res[fld]))[:60] if fld in ak.fields(res) else None))
                 if ext:
                     for fld in ("charge", "weight") + (("hits", "label") if ext == "rich" else ()):
                         ok = fld in ak.fields(res) and ak.to_list(res[fld]) == ak.to_list(v[fld])
